@@ -44,6 +44,10 @@ type Addr struct {
 	baseT types.Type // type stored at the base location
 	ty    types.Type // type of the addressed location
 	maps  *types.Map
+	// dual: the location behind a pointer value that is either a cell pointer (id >= 0, heap `heap`) or an element
+	// pointer mk_ep(array, index) (negative, heap `eheap`); see elemptr.go
+	dual  bool
+	eheap string
 }
 
 type modEntry struct {
@@ -68,6 +72,8 @@ type loopInfo struct {
 }
 
 type FuncVC struct {
+	epTypes map[string]bool
+	addrValSeen map[ssa.Value]bool
 	immTerm map[Term]Term // id term of a write-once cell -> the value stored in it
 	immCells map[*ssa.Alloc]ssa.Value
 	curCites []string
@@ -256,6 +262,20 @@ func (fv *FuncVC) val(v ssa.Value) Term {
 	case *ssa.Builtin:
 		return "0"
 	}
+	// the address of a slice element or of a field of a tracked object used as a value (stored, merged by a phi,
+	// handed to a callee other than as an interior-pointer receiver): outside the verified subset
+	switch v.(type) {
+	case *ssa.IndexAddr, *ssa.FieldAddr:
+		if _, tracked := fv.addrs[v]; tracked {
+			if !fv.addrValSeen[v] {
+				if fv.addrValSeen == nil {
+					fv.addrValSeen = map[ssa.Value]bool{}
+				}
+				fv.addrValSeen[v] = true
+				fv.unsupp("address %s used as a value", v.Name())
+			}
+		}
+	}
 	// instruction value not yet defined (can happen for values defined in unprocessed blocks: phis)
 	name := fv.regName(v)
 	t := e.constant(name, e.sortOf(v.Type()))
@@ -327,12 +347,20 @@ func (fv *FuncVC) wfVal(t Term, ty types.Type, bound Term, depth int) Term {
 		}
 	case *types.Slice:
 		f := and(app("<=", "0", app("s_off", t)), app("<=", "0", app("s_len", t)), app("<=", app("s_len", t), app("s_cap", t)), app("<=", "0", app("s_arr", t)),
-			implies(eq(app("s_arr", t), "0"), eq(app("s_cap", t), "0")))
+			implies(eq(app("s_arr", t), "0"), eq(app("s_cap", t), "0")), app("<=", app("s_cap", t), "9223372036854775807"))
 		if bound != "" {
 			f = and(f, app("<", app("s_arr", t), bound))
 		}
 		return f
 	case *types.Pointer, *types.Map:
+		if pt, isPtr := u.(*types.Pointer); isPtr && fv.isEpType(pt.Elem()) {
+			// may be an element pointer (negative): the array it points into is allocated
+			fv.declEp()
+			if bound != "" {
+				return app("ite", app("<", t, "0"), and(app("<", "0", app("ep_arr", t)), app("<", app("ep_arr", t), bound)), app("<", t, bound))
+			}
+			return "true"
+		}
 		f := app("<=", "0", t)
 		if bound != "" {
 			f = and(f, app("<", t, bound))
@@ -398,10 +426,18 @@ func (fv *FuncVC) addrOf(v ssa.Value) *Addr {
 		_ = g
 	}
 	el := pt.Elem()
+	if fv.isEpType(el) {
+		fv.declEp()
+		return &Addr{heap: fv.e.cellHeap(el), id: fv.val(v), baseT: el, ty: el, dual: true, eheap: fv.e.elemHeap(el)}
+	}
 	return &Addr{heap: fv.e.cellHeap(el), id: fv.val(v), baseT: el, ty: el}
 }
 
 func (fv *FuncVC) readBase(a *Addr, st *State) Term {
+	if a.dual {
+		he, hc := fv.heapGet(st, a.eheap), fv.heapGet(st, a.heap)
+		return app("ite", app("<", a.id, "0"), app("select", app("select", he, app("ep_arr", a.id)), app("ep_idx", a.id)), app("select", hc, a.id))
+	}
 	h := fv.heapGet(st, a.heap)
 	if a.elem {
 		return app("select", app("select", h, a.id), a.idx)
@@ -441,6 +477,19 @@ func (fv *FuncVC) updPath(base Term, path []fieldStep, v Term) Term {
 }
 
 func (fv *FuncVC) writeAddr(a *Addr, v Term) {
+	if a.dual {
+		he, hc := fv.heapGet(fv.st, a.eheap), fv.heapGet(fv.st, a.heap)
+		nv := fv.updPath(fv.readBase(a, fv.st), a.path, v)
+		isEp := app("<", a.id, "0")
+		arr, ix := app("ep_arr", a.id), app("ep_idx", a.id)
+		ne := fv.e.fresh(a.eheap, fv.e.heapSortOf(a.eheap))
+		fv.define(eq(ne, app("ite", isEp, app("store", he, arr, app("store", app("select", he, arr), ix, nv)), he)))
+		fv.setHeap(a.eheap, ne)
+		nc := fv.e.fresh(a.heap, fv.e.heapSortOf(a.heap))
+		fv.define(eq(nc, app("ite", isEp, hc, app("store", hc, a.id, nv))))
+		fv.setHeap(a.heap, nc)
+		return
+	}
 	h := fv.heapGet(fv.st, a.heap)
 	nv := fv.updPath(fv.readBase(a, fv.st), a.path, v)
 	var nh Term
@@ -452,6 +501,14 @@ func (fv *FuncVC) writeAddr(a *Addr, v Term) {
 	name := fv.e.fresh(a.heap, fv.e.heapSortOf(a.heap))
 	fv.define(eq(name, nh))
 	fv.setHeap(a.heap, name)
+}
+
+// writableAddr: the frame condition for a write through an address
+func (fv *FuncVC) writableAddr(a *Addr) Term {
+	if a.dual {
+		return app("ite", app("<", a.id, "0"), fv.writable(a.eheap, app("ep_arr", a.id)), fv.writable(a.heap, a.id))
+	}
+	return fv.writable(a.heap, a.id)
 }
 
 // writable: the frame condition for a write to (heap, id).
@@ -567,6 +624,13 @@ func (fv *FuncVC) scanLoopEffects(li *loopInfo) {
 		for _, ins := range b.Instrs {
 			switch x := ins.(type) {
 			case *ssa.Store:
+				if pt, ok := addrRoot(x.Addr).Type().Underlying().(*types.Pointer); ok && fv.isEpType(pt.Elem()) {
+					if _, tracked := addrRoot(x.Addr).(*ssa.IndexAddr); !tracked {
+						// a store through a pointer value that may be an element pointer
+						eh := e.elemHeap(pt.Elem())
+						li.havoc[eh], li.oldWrites[eh] = true, true
+					}
+				}
 				if h := fv.storeHeapName(x.Addr); h != "" {
 					li.havoc[h] = true
 					if root, ok := addrRoot(x.Addr).(*ssa.Alloc); !ok || !li.body[root.Block()] {
